@@ -1,4 +1,5 @@
 import ChiaModel.Lemmas.Cost
+import ChiaModel.Lemmas.CostNative
 import ChiaModel.Lemmas.CostTable
 import ChiaModel.Props.C02
 import ChiaModel.Spec.CostTable
@@ -97,5 +98,148 @@ theorem unknown_cost_fn (op : Nat) : Gen.computeUnknownConditionCost op = unknow
   split
   · rfl
   · exact unknown_cost_closed_form (op % 256) (Nat.mod_lt _ (by decide))
+
+open ChiaModel.Gn
+
+/-- **The block-level limit is exact (native path).**  If `run_block_generator2` accepts under
+limit `L` reporting cost `c` (byte cost + CLVM cost of generator and puzzles + condition costs),
+then `c ≤ L`, it returns the identical result under limit `c`, and under every smaller limit it
+fails with cost-exceeded. -/
+theorem native_limit_exact (p : Params) (g : GenInput) (genRun : RunRes) (puz : Nat → RunRes) (L : Nat)
+    (b : Bundle) (h : native p g genRun puz L = .ok b) :
+    b.cost ≤ L ∧ native p g genRun puz b.cost = .ok b ∧
+    ∀ L', L' < b.cost → native p g genRun puz L' = .error .costExceeded := by
+  simp only [native_eq] at h ⊢
+  by_cases h0 : simpleGen p.flags ∧ !g.startsQuote
+  · rw [if_pos h0] at h; cases h
+  rw [if_neg h0] at h
+  simp only [if_neg h0]
+  cases hl : nativeCountdown p g genRun puz L with
+  | error e => rw [hl] at h; cases h
+  | ok q =>
+    obtain ⟨⟨ret, st'⟩, left⟩ := q
+    rw [hl] at h; simp only at h
+    cases hb : finishBundle (nativeEnv p) p.sigOk ret st' with
+    | error e => rw [hb] at h; cases h
+    | ok ret' =>
+      rw [hb] at h; simp only at h
+      injection h with h1
+      obtain ⟨s1, s2, s3⟩ := shift_nativeCountdown p g genRun puz L (ret, st') left hl
+      have hcost : b.cost = L - left := by rw [← h1]
+      refine ⟨by omega, ?_, ?_⟩
+      · have e2 := s2 left (Nat.le_refl _)
+        simp only at e2
+        rw [hcost, e2]
+        simp only [hb]
+        rw [← h1]; simp
+      · intro L' hL'
+        have e3 := s3 (L - L') (by omega) (by omega)
+        simp only at e3
+        have : L' = L - (L - L') := by omega
+        rw [this, e3]
+
+
+/-- **The limit is exact for `run_spendbundle`** (mempool path). -/
+theorem runSpendbundle_limit_exact (p : Params) (spends : List CoinSpendM) (puz : Nat → RunRes) (L : Nat)
+    (b : Bundle) (pk : List (Bytes × Bytes)) (h : runSpendbundle p spends puz L = .ok (b, pk)) :
+    b.cost ≤ L ∧ runSpendbundle p spends puz b.cost = .ok (b, pk) ∧
+    ∀ L', L' < b.cost → runSpendbundle p spends puz L' = .error .costExceeded := by
+  simp only [runSpendbundle_eq] at h ⊢
+  cases hl : bundleCountdown p spends puz L with
+  | error e => rw [hl] at h; cases h
+  | ok q =>
+    obtain ⟨⟨ret, st'⟩, left⟩ := q
+    rw [hl] at h; simp only at h
+    cases hb : validateConditions (postProcess (bundleEnv p) ret st') st' with
+    | error e => rw [hb] at h; cases h
+    | ok u =>
+      rw [hb] at h; simp only at h
+      injection h with h; injection h with h1 h2
+      obtain ⟨s1, s2, s3⟩ := shift_bundleCountdown p spends puz L (ret, st') left hl
+      have hcost : b.cost = L - left := by rw [← h1]
+      refine ⟨by omega, ?_, ?_⟩
+      · have e2 := s2 left (Nat.le_refl _)
+        simp only at e2
+        rw [hcost, e2]
+        simp only [hb]
+        rw [← h1, ← h2]; simp
+      · intro L' hL'
+        have e3 := s3 (L - L') (by omega) (by omega)
+        simp only at e3
+        have : L' = L - (L - L') := by omega
+        rw [this, e3]
+
+
+/-- **The block-level limit is exact (legacy ROM path).**  The cost reported by `run_block_generator`
+(byte cost + cost of the ROM run + condition costs) is at most the limit; with the limit set to
+exactly that cost the result is identical, and every smaller limit fails with cost-exceeded. -/
+theorem legacy_limit_exact (p : Params) (g : GenInput) (romRun : RunRes) (L : Nat)
+    (b : Bundle) (h : legacy p g romRun L = .ok b) :
+    b.cost ≤ L ∧ legacy p g romRun b.cost = .ok b ∧
+    ∀ L', L' < b.cost → legacy p g romRun L' = .error .costExceeded := by
+  unfold legacy at h ⊢
+  by_cases h0 : simpleGen p.flags ∧ !g.startsQuote
+  · rw [if_pos h0] at h; cases h
+  rw [if_neg h0] at h; simp only [if_neg h0]
+  by_cases h1 : simpleGen p.flags ∧ g.nrefs > 0
+  · rw [if_pos h1] at h; cases h
+  rw [if_neg h1] at h; simp only [if_neg h1]
+  simp only [subtractCost_eq_charge] at h ⊢
+  cases hc1 : charge L (g.len * p.costPerByte) with
+  | error e => rw [hc1] at h; cases h
+  | ok cl1 =>
+    rw [hc1] at h; simp only at h
+    by_cases h2 : (!generatorNodeOk p.flags g.prog) = true
+    · rw [if_pos h2] at h; cases h
+    rw [if_neg h2] at h; simp only [if_neg h2]
+    cases romRun with
+    | none => simp [runWithLimit] at h
+    | some q =>
+      obtain ⟨c, out⟩ := q
+      simp only [runWithLimit] at h ⊢
+      by_cases h3 : c > cl1
+      · rw [if_pos h3] at h; cases h
+      rw [if_neg h3] at h; simp only at h
+      cases hc2 : charge cl1 c with
+      | error e => rw [hc2] at h; cases h
+      | ok cl2 =>
+        rw [hc2] at h; simp only at h
+        cases hp : parseSpends { flags := p.flags, mempool := false, pkOk := p.pkOk } p.sigOk out cl2 0 with
+        | error e => rw [hp] at h; cases h
+        | ok r =>
+          obtain ⟨ret, st⟩ := r
+          rw [hp] at h; simp only at h
+          injection h with hb
+          obtain ⟨hB, e1⟩ := charge_ok_iff.mp hc1
+          obtain ⟨hC, e2⟩ := charge_ok_iff.mp hc2
+          obtain ⟨l1, l2, l3⟩ := limit_exact _ _ _ _ _ _ _ hp
+          have hcost : b.cost = ret.cost + (L - cl2) := by rw [← hb]
+          have hcost' : b.cost = ret.cost + g.len * p.costPerByte + c := by omega
+          refine ⟨by omega, ?_, ?_⟩
+          · have c1 : charge b.cost (g.len * p.costPerByte) = .ok (ret.cost + c) :=
+              charge_ok_iff.mpr ⟨by omega, by omega⟩
+            have c2 : charge (ret.cost + c) c = .ok ret.cost := charge_ok_iff.mpr ⟨by omega, by omega⟩
+            rw [c1]; simp only
+            rw [if_neg (by omega)]; simp only
+            rw [c2]; simp only
+            rw [l2]; simp only
+            rw [← hb]
+            have : ret.cost + (ret.cost + (L - cl2) - ret.cost) = ret.cost + (L - cl2) := by omega
+            simp only [this]
+          · intro L' hL'
+            by_cases a1 : L' < g.len * p.costPerByte
+            · have : charge L' (g.len * p.costPerByte) = .error .costExceeded := by
+                unfold charge; rw [if_pos a1]
+              rw [this]
+            · have c1 : charge L' (g.len * p.costPerByte) = .ok (L' - g.len * p.costPerByte) :=
+                charge_ok_iff.mpr ⟨by omega, rfl⟩
+              rw [c1]; simp only
+              by_cases a2 : c > L' - g.len * p.costPerByte
+              · rw [if_pos a2]
+              · rw [if_neg a2]; simp only
+                have c2 : charge (L' - g.len * p.costPerByte) c = .ok (L' - g.len * p.costPerByte - c) :=
+                  charge_ok_iff.mpr ⟨by omega, rfl⟩
+                rw [c2]; simp only
+                rw [l3 _ (by omega)]
 
 end ChiaModel.C04
